@@ -34,6 +34,7 @@ def rshift(x): return x >> 7
 def truediv(x): return x / 7
 def radd(x): return 7 + x
 def rsub(x): return 7 - x
+def mul(x): return x * 7
 """
 
 
@@ -42,9 +43,15 @@ def _tu():
 
 
 def _bv(op):
+    """Python's bit operation on two ints (two's complement of unbounded width).  With both operands inside 64 bits it is
+    the 64-bit operation; `x & c` with 0 <= c < 2**30 only depends on x mod 2**30, for x of ANY size (validated natively)."""
     def f(a, b):
         x, y = z3.Int2BV(a, 64), z3.Int2BV(b, 64)
-        return z3.BV2Int({"&": x & y, "|": x | y, "^": x ^ y}[op], is_signed=True)
+        wide = z3.BV2Int({"&": x & y, "|": x | y, "^": x ^ y}[op], is_signed=True)
+        if op != "&":
+            return wide
+        low = z3.BV2Int(z3.Int2BV(a % (2 ** 30), 30) & z3.Int2BV(b, 30), is_signed=False)
+        return If(And(b >= 0, b < 2 ** 30), low, wide)
     return f
 
 
@@ -60,10 +67,11 @@ def _shr(a, b):
 OPS = {
     "Add": ("ObjC", lambda a, c: a + c, "add"), "Subtract": ("ObjC", lambda a, c: a - c, "sub"),
     "FloorDivide": ("ObjC", lambda a, c: S.floordiv(a, c), "floordiv"), "Remainder": ("ObjC", lambda a, c: S.pymod(a, c), "mod"),
-    # And / Or / Xor: NOT under contract yet - both operands of the C `&` are symbolic (no constant-mask idiom applies)
-    # and the fast path also handles arbitrarily large ints through their last digit; see DESIGN.md
     "Lshift": ("ObjC", _shl, "lshift"), "Rshift": ("ObjC", _shr, "rshift"),
+    "Multiply": ("ObjC", lambda a, c: a * c, "mul"),
 }
+# And / Or / Xor: both operands of the C operator are symbolic; decided in the bit-vector theory (EXPERIMENTAL units)
+BITOPS = {"And": ("ObjC", _bv("&"), "and"), "Or": ("ObjC", _bv("|"), "or"), "Xor": ("ObjC", _bv("^"), "xor")}
 ROPS = {"Add": lambda c, a: c + a, "Subtract": lambda c, a: c - a}
 
 
@@ -120,7 +128,7 @@ def _native(model, ob=None):
     code = r'''
 import sys, operator as op; sys.path.insert(0, %r); import dvbinoprep as m
 fs = {"add": lambda x: x + 7, "sub": lambda x: x - 7, "floordiv": lambda x: x // 7, "mod": lambda x: x %% 7, "and_": lambda x: x & 7,
-      "or_": lambda x: x | 7, "xor": lambda x: x ^ 7, "lshift": lambda x: x << 7, "rshift": lambda x: x >> 7, "truediv": lambda x: x / 7, "radd": lambda x: 7 + x, "rsub": lambda x: 7 - x}
+      "or_": lambda x: x | 7, "xor": lambda x: x ^ 7, "lshift": lambda x: x << 7, "rshift": lambda x: x >> 7, "truediv": lambda x: x / 7, "radd": lambda x: 7 + x, "rsub": lambda x: 7 - x, "mul": lambda x: x * 7}
 vals = sorted(set(s * (2**k + d) for k in (0, 3, 29, 30, 31, 32, 56, 57, 59, 60, 61, 62, 63, 64, 89, 90, 91, 120) for d in (-8, -7, -1, 0, 1, 6, 7) for s in (1, -1)))
 vals += [2**53 + 1, 2**53 + 3, 2**60 - 1, 2**58 + 9, -(2**53) - 1]
 bad = [(n, v, getattr(m, n)(v)) for n, f in fs.items() for v in vals if getattr(m, n)(v) != f(v) or type(getattr(m, n)(v)) is not type(f(v))]
@@ -136,7 +144,11 @@ print(bad[:5])
 def units(tier):
     us = []
     props = {"C02": None, "C36": ["ub", "pre", "subset"]}
-    for name, (order, spec, opcode) in OPS.items():
+    import os
+    allops = dict(OPS)
+    if os.environ.get("DV_EXPERIMENTAL"):
+        allops.update(BITOPS)
+    for name, (order, spec, opcode) in allops.items():
         fname = "__Pyx_PyLong_%s%s" % (name, order)
         u = CUnit("Optimize.PyLongBinop.%s%s" % (name, order), props, fname, _tu, filt="__Pyx_PyLong_%s%s" % (name, order),
                   pyobjs=("op1", "op2"), requires=_requires("op1", "op2", name in ("FloorDivide", "Remainder"), name in ("Lshift", "Rshift")),
